@@ -31,6 +31,10 @@ TRUSTED = [
     "the domain glue above the chunks (load_property file reading, parse_match of the query, IUSE defaults, USE_EXPAND globs against "
     "IUSE, use.mask/use.force layering) has no Lean model: it is exercised by driving a real domain object and compared with the "
     "flat left-to-right reading of the generated configuration",
+    "profile stacking: the order of the stack (parents depth first as listed, then the node; a shared ancestor once per branch) is "
+    "recomputed by the harness from the generated `parent` files and compared with the real stack; reading of the profile files "
+    "(one chunk per use.* file, one per package.use* line) is mirrored in the harness, the collapsing itself is the Lean `render` of "
+    "the flat entry list (theorem history_render_is_flat covers every grouping by merge/update)",
 ]
 ASSUMPTIONS = [
     "a `simple` key (AlwaysTrue, version-less atom) matches every package whose key selects the list it is stored in; checked per case",
@@ -41,7 +45,10 @@ RULE = ("random chunk sequences and random histories of ChunkedDataDict operatio
         "user package.use token lines (plain tokens, '-*', 0-3 `NAME:` sections with values, '-*' inside sections, repeated and lower-case "
         "headers, rarely invalid tokens / odd headers) through the real package_use_splitter + pkg_use, and whole configurations (1-6 such "
         "lines over */*, cat/*, cp and versioned queries in two package.use files, optional global USE, IUSE defaults) through a real "
-        "domain object asked with get_package_use_unconfigured and enabled_use.pull_data for three packages; "
+        "domain object asked with get_package_use_unconfigured and enabled_use.pull_data for three packages; generated on-disk profile "
+        "trees (2-6 directories, `parent` files listing 1-3 earlier nodes: diamonds, a parent listed twice; EAPI none/5/8; use.mask, use.force, "
+        "package.use, package.use.mask/force and the use.stable.* / package.use.stable.* files) through real OnDiskProfile objects: the six "
+        "collapsed dicts and a domain on top compared with every node's entries applied in stack order; "
         "non-trivial = at least two applicable chunks speak about the same flag or a wildcard negation is present")
 
 NAMES = ["a", "b", "foo_a", "foo_b", "foobar", "foo_*", "bar_x"]
@@ -531,6 +538,193 @@ def run(ctx):
                           finding="C11-inline-order-lost" if contradictory(toks) else None)
     ctx.extra["token_line_cases"] = nlines
 
+    # ------------------------------------------------------------------ stacked profiles: real ProfileStack objects over on-disk trees
+    # The "order given" for profile entries is the stack: parents depth first in the order the `parent` file lists them, then the
+    # node itself -- a profile inherited along several branches (diamonds, the same parent listed twice) stands in it once per
+    # branch.  Generated trees of 2-6 profile directories with use.mask / use.force / package.use / package.use.mask /
+    # package.use.force and the use.stable.* / package.use.stable.* variants (EAPI >= 5 nodes only); the six collapsed dicts of
+    # OnDiskProfile (and a domain built on it) are compared with the flat application of every node's entries in stack order.
+    PFLAGS = ["a", "b", "foo_a", "foo_b", "foobar", "bar_x"]
+    PNEG = PFLAGS + ["foo_*", "*"]
+    ATOM_KIDS = [1, 2, 3, 4, 5, 6]          # indices into W.keys that are atoms
+    GLOBAL_FILES = ["use.mask", "use.force", "use.stable.mask", "use.stable.force"]
+    PKG_FILES = ["package.use", "package.use.mask", "package.use.force", "package.use.stable.mask", "package.use.stable.force"]
+    PIUSE = ["a", "+b", "foo_a", "+foo_b", "foobar", "bar_x"]
+    PSTRIPPED = {f.lstrip("+") for f in PIUSE}
+    ppkgs = [FakePkg(str_cpv, eapi="8", iuse=PIUSE, keywords=["~amd64"]) for str_cpv in ("cat/pkg-1", "cat/pkg-2", "oth/x-1")]
+    pmatch = [W.matches(p) for p in ppkgs]
+
+    def gen_flagline(wild):
+        """tokens of one entry, negatives first, no flag both on and off (the order inside one entry is the business of the line level)"""
+        n = rng.choice([1, 1, 2, 3])
+        names = rng.sample(PNEG if rng.random() < wild else PFLAGS, min(n, len(PFLAGS)))
+        neg = [x for x in names if x in ("*", "foo_*") or rng.random() < 0.45]
+        pos = [x for x in names if x not in neg]
+        return neg, pos
+
+    def gen_node(i):
+        node = {"eapi": rng.choice([None, "5", "8", "8"]), "parents": [], "files": {}}
+        if i > 0:
+            k = rng.choice([1, 1, 2, 2, 3])
+            node["parents"] = [rng.randrange(i) for _ in range(k)]      # earlier nodes only: acyclic; repeats and shared ancestors welcome
+        for fn in GLOBAL_FILES:
+            if rng.random() < 0.45:
+                neg, pos = [], []
+                for name in rng.sample(PNEG if rng.random() < 0.2 else PFLAGS, rng.choice([1, 1, 2, 3])):
+                    (neg if name in ("*", "foo_*") or rng.random() < 0.45 else pos).append(name)
+                node["files"][fn] = [["-" + x] for x in neg] + [[x] for x in pos]          # one flag per line
+        for fn in PKG_FILES:
+            if rng.random() < 0.45:
+                lines = []
+                for _ in range(rng.choice([1, 1, 2, 3])):
+                    kid = rng.choice(ATOM_KIDS)
+                    neg, pos = gen_flagline(0.15)
+                    lines.append([str(W.keys[kid][0])] + ["-" + x for x in neg] + pos)
+                node["files"][fn] = lines
+        return node
+
+    def stack_order(nodes, i):
+        out = []
+        for par in nodes[i]["parents"]:
+            out += stack_order(nodes, par)
+        return out + [i]
+
+    def kid_of_atom(text):
+        return next(k for k in ATOM_KIDS if str(W.keys[k][0]) == text)
+
+    def node_entries(node, attr):
+        """the entries one node contributes to a collapsed dict, in the order the node applies them: (kid, neg, pos)"""
+        stable_ok = node["eapi"] in ("5", "8")
+        def glob(fn):
+            toks = [t for line in node["files"].get(fn, []) for t in line]
+            neg, pos = [t[1:] for t in toks if t[0] == "-"], [t for t in toks if t[0] != "-"]
+            return [(0, neg, pos)] if neg or pos else []
+        def lines(fn):
+            # (_parse_package_use regroups the lines by cp; a package has one cp, so its entries keep their order)
+            return [(kid_of_atom(l[0]), [t[1:] for t in l[1:] if t[0] == "-"], [t for t in l[1:] if t[0] != "-"]) for l in node["files"].get(fn, [])]
+        if attr in ("masked_use", "forced_use"):
+            w = "mask" if attr == "masked_use" else "force"
+            return glob("use." + w) + lines("package.use." + w)
+        if attr in ("stable_masked_use", "stable_forced_use"):
+            w = "mask" if attr == "stable_masked_use" else "force"
+            return glob("use." + w) + (glob("use.stable." + w) if stable_ok else []) + lines("package.use." + w) + \
+                (lines("package.use.stable." + w) if stable_ok else [])
+        return lines("package.use")          # pkg_use, stable_use (use.stable / package.use.stable need EAPI 9)
+
+    ATTRS = ["masked_use", "forced_use", "stable_masked_use", "stable_forced_use", "pkg_use", "stable_use"]
+    trees = [
+        # diamond: base, a, base, b, top -- branch a undoes what the shared base says
+        [{"eapi": "8", "parents": [], "files": {"use.mask": [["a"]], "use.force": [["b"]], "package.use": [["cat/pkg", "foo_a"]], "package.use.mask": [["cat/pkg", "bar_x"]]}},
+         {"eapi": "8", "parents": [0], "files": {"use.mask": [["-a"]], "use.force": [["-b"]], "package.use": [["cat/pkg", "-foo_a"]], "package.use.mask": [["=cat/pkg-1", "-bar_x"]]}},
+         {"eapi": "8", "parents": [0], "files": {}},
+         {"eapi": "8", "parents": [1, 2], "files": {}}],
+        # the same parent twice, a -* in between
+        [{"eapi": None, "parents": [], "files": {"use.force": [["a"], ["foo_a"]]}},
+         {"eapi": "5", "parents": [0], "files": {"use.force": [["-*"]], "use.stable.force": [["b"]]}},
+         {"eapi": "5", "parents": [1, 0, 1], "files": {"package.use.force": [["oth/x", "-a"]]}}],
+    ]
+    if ctx.replay_cases:
+        trees = [c["profiles"] for c in ctx.replay_cases if "profiles" in c] + trees
+    for _ in range(ctx.n(70, 1500)):
+        trees.append([gen_node(i) for i in range(rng.randint(2, 6))])
+    tmp = tempfile.mkdtemp(prefix="verif-c11p-")
+    nprof = 0
+    try:
+        preqs, pmeta = [], []
+        for ti, nodes in enumerate(trees):
+            base = os.path.join(tmp, "t%d" % ti, "profiles")
+            for i, node in enumerate(nodes):
+                d = os.path.join(base, "n%d" % i)
+                os.makedirs(d)
+                if node["eapi"]:
+                    with open(os.path.join(d, "eapi"), "w") as f:
+                        f.write(node["eapi"] + "\n")
+                if node["parents"]:
+                    with open(os.path.join(d, "parent"), "w") as f:
+                        f.write("".join("../n%d\n" % par for par in node["parents"]))
+                for fn, lines in node["files"].items():
+                    with open(os.path.join(d, fn), "w") as f:
+                        f.write("".join(" ".join(l) + "\n" for l in lines))
+            top = len(nodes) - 1
+            with open(os.path.join(base, "n%d" % top, "make.defaults"), "w") as f:
+                f.write('ARCH="amd64"\nACCEPT_KEYWORDS="amd64 ~amd64"\n')
+            case = {"profiles": nodes}
+            order = stack_order(nodes, top)
+            try:
+                prof = profiles_mod.OnDiskProfile(base, "n%d" % top)
+                real_order = [os.path.basename(n.path) for n in prof.stack][1:]
+            except Exception as e:
+                ctx.violation(case, f"building the profile stack raised {type(e).__name__}: {e}")
+                continue
+            if real_order != ["n%d" % i for i in order]:
+                ctx.mismatch(case, f"the stack is {real_order}, parents-first depth-first order is {order}")
+                continue
+            nprof += 1
+            shared = len(order) != len(set(order))
+            ctx.case(case, len(order) >= 3, key="T|" + repr(nodes))
+            ctx.count("profile_stack_%s" % min(len(order), 9))
+            ctx.count("profile_shared_ancestor_%s" % shared)
+            flat = {attr: [e for i in order for e in node_entries(nodes[i], attr)] for attr in ATTRS}
+            for attr in ATTRS:
+                try:
+                    real_d = getattr(prof, attr)
+                except Exception as e:
+                    ctx.violation(dict(case, attr=attr), f"collapsing {attr} raised {type(e).__name__}: {e}")
+                    continue
+                for p, ms in zip(ppkgs, pmatch):
+                    pre = rng.sample(PFLAGS, rng.choice([0, 0, 1, 2]))
+                    preqs.append({"cmd": "c11.render", "seq": [W.cj(k, n, p_) for k, n, p_ in flat[attr]], "match": ms, "pre": pre, "probes": PROBES, "rk": 1})
+                    pmeta.append(("attr", case, attr, real_d, p, pre, flat[attr]))
+            # ... and through a domain built on the profile: forced (immutable), masked (disabled), enabled
+            if not os.environ.get("USE"):
+                conf, root = os.path.join(tmp, "t%d" % ti, "conf"), os.path.join(tmp, "t%d" % ti, "root")
+                os.makedirs(conf)
+                os.makedirs(root)
+                try:
+                    the_dom = dom.domain(prof, [], [], ROOT=root, config_dir=conf)
+                except Exception as e:
+                    ctx.violation(case, f"domain construction raised {type(e).__name__}: {e}")
+                    continue
+                pre = sorted(f[1:] for f in PIUSE if f[0] == "+")
+                for p, ms in zip(ppkgs, pmatch):
+                    for attr, pre_ in (("forced_use", []), ("masked_use", []), ("pkg_use", pre)):
+                        seq = flat[attr] + ([(0, [], ["amd64"])] if attr == "forced_use" else [])
+                        preqs.append({"cmd": "c11.render", "seq": [W.cj(k, n, p_) for k, n, p_ in seq], "match": ms, "pre": pre_, "probes": PROBES, "rk": 1})
+                    pmeta.append(("domain", case, None, the_dom, p, pre, None))
+        reps = iter(ctx.model(preqs))
+        for kind, case, attr, obj, p, pre, seq in pmeta:
+            if kind == "attr":
+                rep = next(reps)
+                pc = dict(case, attr=attr, pkg=str(p), pre_defaults=pre, entries_in_stack_order=[list(e) for e in seq])
+                try:
+                    got = set(obj.render_pkg(p, pre))
+                except Exception as e:
+                    ctx.violation(pc, f"render_pkg raised {type(e).__name__}: {e}")
+                    continue
+                ctx.evaluations += 1
+                if sorted(got) != sorted(rep["render"]):
+                    ctx.mismatch(pc, f"ProfileStack.{attr} renders {sorted(got)}, the model on the flat stack {sorted(rep['render'])}")
+                for x, h in zip(PROBES, rep["holds"]):
+                    if (x in got) != h:
+                        ctx.violation(pc, f"flag {x!r}: ProfileStack.{attr} says {x in got}; applying the entries of the stack in order says {h}")
+                        break
+            else:
+                forced, masked, enabled = (set(next(reps)["render"]) for _ in range(3))
+                want_en = ((enabled & PSTRIPPED) | forced) - masked
+                pc = dict(case, pkg=str(p))
+                try:
+                    imm, en, dis = obj.get_package_use_unconfigured(p)
+                except Exception as e:
+                    ctx.violation(pc, f"get_package_use_unconfigured raised {type(e).__name__}: {e}")
+                    continue
+                ctx.evaluations += 1
+                if set(imm) != forced or set(dis) != masked or set(en) != want_en:
+                    ctx.violation(pc, f"get_package_use_unconfigured gives forced {sorted(imm)} masked {sorted(dis)} enabled {sorted(en)}; the stack applied in "
+                                      f"order gives forced {sorted(forced)} masked {sorted(masked)} enabled {sorted(want_en)}")
+    finally:
+        shutil.rmtree(tmp, ignore_errors=True)
+    ctx.extra["profile_trees"] = nprof
+
 
 LEVEL_TEXT = ("Kernel-checked Lean 4 theorems about models of incremental_chunked, _build_cp_atom_payload and the ChunkedDataDict operations: "
               "rendering a chunk sequence is 'the last applicable chunk speaking about a flag decides' (-flag, flag, -*, -PREFIX_*), for all "
@@ -542,7 +736,8 @@ LEVEL_TEXT = ("Kernel-checked Lean 4 theorems about models of incremental_chunke
               "means the same as the whole rewritten line; the single chunk domain.pkg_use stores for a line applies like the tokens in order "
               "whenever no token switches a flag on that a later one switches off (proved counterexample otherwise). Tied to the code by a "
               "differential run on random and bounded-exhaustive chunk sequences, random operation histories through the real API, random "
-              "package.use lines through the real splitter, and whole configurations through a real domain object, which also evaluates the "
+              "package.use lines through the real splitter, whole configurations through a real domain object, and generated profile trees (with "
+              "shared ancestors) through real ProfileStack objects compared with the flat stack order, which also evaluates the "
               "flat specification on the real results.")
 LEVEL_NOTE = ("Trusted: Lean kernel; restrictions reduced to identity/simple/cp (match results taken from the real match()); sets as lists; "
               "lines modelled behind str.split(); the domain glue above the chunks is driven, not modelled. Partial: split_negations("
